@@ -87,6 +87,9 @@ func rotateScenario(w *world) engine.Scenario {
 		re, im := w.ramp()
 		c.Cover("scheme", w.scheme+"-"+rtName(w.rt))
 		c.Cover("np", fmt.Sprint(w.np))
+		if w.gap > 1 {
+			c.Cover("bgv-plaintext-ring", "smaller")
+		}
 		if w.rowLen*w.rows < w.maxSlots() {
 			c.Cover("packing", "sparse")
 		} else {
@@ -212,31 +215,114 @@ func (w *world) maxSlots() int {
 	return w.ck.Params.MaxSlots()
 }
 
-// lateKeysScenario: keys added to the key set after the evaluator was constructed (the key set is an
-// interface the evaluator holds; MemEvaluationKeySet is a plain map the caller owns).
+// lateKeysScenario: Galois keys inserted into the key set after the evaluator was constructed (the key set
+// is an interface the evaluator holds; MemEvaluationKeySet is a plain map the caller owns). Variants: the
+// key set held no Galois key / a different Galois key / the conjugation key at construction; the late key is
+// then used through the plain, hoisted and lazy entry points and by an inner sum, and compared with the
+// same operations on an evaluator constructed after all keys existed.
 func lateKeysScenario(w *world) engine.Scenario {
 	name := "latekeys/" + w.name
+	atCreation := []string{"none", "other-rotation", "order-two", "same-then-more"}
+	ks := []int{1, -1, 3, w.rowLen - 1}
 	return engine.Scenario{Name: name, Bound: -1, Fn: func(c *engine.Chooser) {
 		w.ensure(c)
-		uni.Seed(c, name)
+		vi := c.Choose(len(atCreation), "at-creation")
+		ki := c.Choose(len(ks), "k")
+		uni.Seed(c, name, vi, ki)
 		re, im := w.ramp()
-		k := 1
+		k := ks[ki]
 		g := w.rp.GaloisElement(k)
-		evk := rlwe.NewMemEvaluationKeySet(nil)
+		var first []uint64
+		switch atCreation[vi] {
+		case "other-rotation":
+			first = []uint64{w.rp.GaloisElement(k + 1)}
+		case "order-two":
+			if !w.hasConj {
+				first = []uint64{w.rp.GaloisElement(2)}
+			} else {
+				first = []uint64{w.rp.GaloisElementOrderTwoOrthogonalSubgroup()}
+			}
+		case "same-then-more":
+			first = []uint64{g}
+		}
+		evk := rlwe.NewMemEvaluationKeySet(nil, w.galoisKeys(first)...)
 		o := w.opsFor(evk)
-		for _, gk := range w.galoisKeys([]uint64{g}) {
+		ct := w.encrypt(re, im)
+		if len(first) > 0 && first[0] != 1 {
+			// use the evaluator once before the key set grows (lazily built tables are then already populated)
+			tmp := ct.CopyNew()
+			if err, pan := uni.Try(func() error { return o.rl.Automorphism(ct, first[0], tmp) }); err != nil || pan != nil {
+				c.Fail("C11/"+w.scheme+"/latekeys/first-use-failed", "%s: err=%v panic=%v", w.name, err, pan)
+				return
+			}
+		}
+		late := []uint64{g, w.rp.GaloisElement(2 * k)}
+		for _, gk := range w.galoisKeys(late) {
 			evk.GaloisKeys[gk.GaloisElement] = gk
 		}
-		ct := w.encrypt(re, im)
+		one := budget{terms: 1, ks: 1, div: 1}
+		sig := "C11/" + w.scheme + "/rotate/key-added-after-evaluator-construction"
+		wr, wi := rotRows(re, w.rowLen, k), rotRows(im, w.rowLen, k)
 		out := ct.CopyNew()
 		if err, pan := uni.Try(func() error { return o.rotate(ct, k, out) }); err != nil || pan != nil {
-			c.Fail("C11/rlwe/CheckAndGetGaloisKey/key-added-after-evaluator-construction", "%s: key for galEl %d is in the key set, Rotate: err=%v panic=%v", w.name, g, err, pan)
+			c.Fail(sig+"/failed", "%s (%s at creation): key for galEl %d is in the key set, Rotate(%d): err=%v panic=%v", w.name, atCreation[vi], g, k, err, pan)
 			return
 		}
-		if !w.compare(c, "C11/"+w.scheme+"/rotate/key-added-after-evaluator-construction/value", out, rotRows(re, w.rowLen, k), rotRows(im, w.rowLen, k), nil, budget{terms: 1, ks: 1, div: 1}) {
+		if !w.compare(c, sig+"/value", out, wr, wi, nil, one) {
+			return
+		}
+		// second use of the same late key, and the other late key
+		out2 := ct.CopyNew()
+		if err, pan := uni.Try(func() error { return o.rotate(out, k, out2) }); err != nil || pan != nil {
+			c.Fail(sig+"/failed", "%s: second Rotate(%d): err=%v panic=%v", w.name, k, err, pan)
+			return
+		}
+		if !w.compare(c, sig+"/value", out2, rotRows(re, w.rowLen, 2*k), rotRows(im, w.rowLen, 2*k), nil, budget{terms: 1, ks: 2, div: 1}) {
+			return
+		}
+		out3 := ct.CopyNew()
+		if err, pan := uni.Try(func() error { return o.rotate(ct, 2*k, out3) }); err != nil || pan != nil {
+			c.Fail(sig+"/failed", "%s: Rotate(%d) with the second late key: err=%v panic=%v", w.name, 2*k, err, pan)
+			return
+		}
+		if !w.compare(c, sig+"/value", out3, rotRows(re, w.rowLen, 2*k), rotRows(im, w.rowLen, 2*k), nil, one) {
+			return
+		}
+		if w.np > 0 {
+			outH := ct.CopyNew()
+			if err, pan := uni.Try(func() error {
+				o.rl.DecomposeNTT(ct.Level(), w.np-1, w.np, ct.Value[1], ct.IsNTT, o.rl.BuffDecompQP)
+				return o.rl.AutomorphismHoisted(ct.Level(), ct, o.rl.BuffDecompQP, g, outH)
+			}); err != nil || pan != nil {
+				c.Fail(sig+"/hoisted-failed", "%s: AutomorphismHoisted with a late key: err=%v panic=%v", w.name, err, pan)
+				return
+			}
+			if !w.compare(c, sig+"/hoisted-value", outH, wr, wi, nil, one) {
+				return
+			}
+			var m map[int]*rlwe.Ciphertext
+			if err, pan := uni.Try(func() (e error) { m, e = o.hoistedLazy(ct, []int{k}); return }); err != nil || pan != nil {
+				c.Fail(sig+"/hoisted-lazy-failed", "%s: err=%v panic=%v", w.name, err, pan)
+				return
+			}
+			if k != 0 { // the lazy wrappers skip k = 0
+				if !w.compare(c, sig+"/hoisted-lazy-value", m[k], wr, wi, nil, one) {
+					return
+				}
+			}
+		}
+		// a shallow copy and a WithKey view made after the insertion must see the key too
+		sc := o.rl.ShallowCopy()
+		outS := ct.CopyNew()
+		if err, pan := uni.Try(func() error { return sc.Automorphism(ct, g, outS) }); err != nil || pan != nil {
+			c.Fail(sig+"/shallow-copy-failed", "%s: err=%v panic=%v", w.name, err, pan)
+			return
+		}
+		if !w.compare(c, sig+"/shallow-copy-value", outS, wr, wi, nil, one) {
 			return
 		}
 		c.Cover("rotate", "late-keys")
-		c.Outcome(name, "ok")
+		c.Cover("late-keys", atCreation[vi])
+		c.Outcome(name, vi, wr)
 	}}
 }
